@@ -78,6 +78,11 @@ def hook(cfg, tshim, mode):
             rec["mass"] = molecule.mass.tolist()
 
     L._apply_langevin_thermostat = wrapped
+    if mode == "resume":
+        # the driver object is built inside run_from_checkpoint: count force evaluations through a global module hook
+        from torch.nn.modules.module import register_module_forward_hook
+
+        register_module_forward_hook(lambda m, a, o: rec["ncalls"].__setitem__(0, rec["ncalls"][0] + 1) if isinstance(m, MDm.esdriver) else None)
 
     def on_md(md, mol):
         md.esdriver.register_forward_hook(lambda m, a, o: rec["ncalls"].__setitem__(0, rec["ncalls"][0] + 1))
@@ -153,7 +158,9 @@ def gen(rng, tier):
     cfg["out"] = {"molid": [0], "print": 0, "ckpt": 0, "xyz": 0, "h5": {"data": 0, "coordinates": 0, "velocities": 0, "forces": 0}}
     cfg["reuse_P"] = True
     cfg["remove_com"] = None
-    if cfg["driver"] == "stub" and rng.random() < 0.25:
+    if cfg["driver"] == "stub" and cfg["steps"] >= 3 and rng.random() < 0.2:
+        cfg["resume_after"] = rng.randint(1, cfg["steps"] - 1)
+    elif cfg["driver"] == "stub" and rng.random() < 0.25:
         # the same driver object first runs another batch of the same shape (other elements in the slots)
         shape = sorted(len(mdsim.POOL[m][0]) for m in cfg["batch"])
         same = [b for b in BATCHES + SAME_SHAPE if sorted(len(mdsim.POOL[m][0]) for m in b) == shape and b != cfg["batch"]]
@@ -218,11 +225,35 @@ def _run(cfg, root, name, hooked=True):
     return d, r
 
 
+def _run_resumed(cfg, root, name, after):
+    """The same run, interrupted at the entry of step after+1 and resumed from the checkpoint of step `after`:
+    returns the report of the RESUMED incarnation (every thermostat application from there on is observed)."""
+    d = os.path.join(root, name)
+    os.makedirs(d)
+    c = json.loads(json.dumps(cfg))
+    c["out"]["ckpt"] = 1
+    opts = {"io_seam": False, "rng_seam": True, "child_hook": "dst.c12:hook"}
+    r0 = mdsim.run_incarnation(c, d, 0, {"kind": "soft", "clock": "step", "step": after + 1, "off": 0}, "fresh", opts, timeout=900)
+    if r0["status"] != 3 or (r0.get("exc") or {}).get("type") != "InjectedCrash":
+        return d, r0
+    return d, mdsim.run_incarnation(c, d, 1, None, "resume", opts, timeout=900)
+
+
 def _exact(record, root):
     tol = core.tolerances()["C12"]
     cfg = record["cfg"]
     failures, stats = [], {"probes": {}, "applications": 0, "max": {}}
-    d, r = _run(cfg, root, "A")
+    ra = int(cfg.get("resume_after") or 0)
+    if ra:
+        # the thermostat of a RESUMED run: same identity, same schedule, over the remaining steps
+        d, r = _run_resumed(cfg, root, "A", ra)
+        cfg = dict(cfg, steps=cfg["steps"] - ra)
+        stats["probes"]["resumed_runs"] = 1
+    else:
+        d, r = _run(cfg, root, "A")
+    if r["status"] == 0 and ra and not (r["report"]["hook"].get("apps")):
+        failures.append(core.fail("schedule", f"no thermostat application at all in the {cfg['steps']} steps after the resume ({cfg['engine']}, damp={cfg['damp']:.4g} fs): the resumed run is not thermostatted"))
+        return core.Result.make(record, failures, stats, sig=None, nontrivial=False)
     if r["status"] != 0:
         failures.append(core.fail("run-failed", f"valid Langevin configuration raised {(r.get('exc') or {})}"))
         return core.Result.make(record, failures, stats, sig=None, nontrivial=False)
